@@ -162,7 +162,7 @@ class ZS:
             return VBox('set', z3.Const(name, self.zsort(S)), S.elem)
         if isinstance(S, api.Dict):
             ks, vs = self.zsort(S.key), self.zsort(S.val)
-            return VBox('dict', z3.Const(name + '?has', z3.ArraySort(ks, z3.BoolSort())), S.key, None, z3.Const(name + '?val', z3.ArraySort(ks, vs)))
+            return VBox('dict', z3.Const(name + '?has', z3.ArraySort(ks, z3.BoolSort())), S.key, S.val, z3.Const(name + '?val', z3.ArraySort(ks, vs)))
         if isinstance(S, api.TupleS):
             return tuple(self.sym(e, f'{name}.{i}', resolver) for i, e in enumerate(S.elems))
         if isinstance(S, api.Abstract):
